@@ -64,7 +64,7 @@ func c02Labels(idx spec.V3Idx) (bool, []string) {
 func TestC02(t *testing.T) {
 	c := begin(t, "C02")
 	defer c.end()
-	c.rec.F.Rule = "enumeration: all 2 x 2,592 x 5 x 5 x 4 = 518,400 vectors decoded by the temporal decoder in canonical order with only the defined temporal metrics written (thorough: by the temporal and the environmental decoder, canonical plus two hash-seeded presentation variants: shuffled tokens, explicit X, extra environmental metrics); rapid: random vector, decoder in {temporal, environmental}, nil receiver, order, omission, explicit X. Non-trivial = base score > 0 and at least one of E/RL/RC with weight < 1; enumerated points are distinct by construction, rapid cases by hash of (decoder, input)."
+	c.rec.F.Rule = "enumeration: all 2 x 2,592 x 5 x 5 x 4 = 518,400 vectors decoded by the temporal decoder in canonical order with only the defined temporal metrics written (thorough: by the temporal and the environmental decoder, canonical plus two hash-seeded presentation variants: shuffled tokens, explicit X, extra environmental metrics); rapid: random vector, decoder in {temporal, environmental}, nil receiver, order, omission, explicit X. Non-trivial = base score > 0 and at least one of E/RL/RC with weight < 1; enumerated points are distinct by construction, rapid cases by hash of (decoder, input). A quarter of the constructor-made decoders have every observer of every view called once before their single Decode (queried_before_decode)."
 	c.rec.F.Assumptions = []string{"reference model: C01's exact base tenth, then integer arithmetic ceil(k*e*rl*rc/10^6) with weights in hundredths; both Roundup readings evaluated and compared", "library constants bound by exported name"}
 
 	levels := []spec.Level{spec.Temporal}
